@@ -45,6 +45,9 @@ CHECKS = {
  "C10": ("proof", "coq-staging", "machine-checked proof in Coq (refutation + restricted theorem) + renaming correspondence",
          "hygiene is REFUTED on the code (C10_hygiene_refuted, witness replayed on the real compiler) and proved under the freshness restriction (C10_hygiene_fresh, expansion commutes with renaming)",
          "alpha-equivalence of main-stage code not mechanised; known finding F7"),
+ "C16": ("other", "coq-lmmm", "Coq alpha-invariance theorems for the fragment + source-to-source transformation search",
+         "PARTIAL: C16_alpha_ref / C16_alpha_machine (reference semantics, compiled machine and published skeleton invariant under injective renaming of variables and functions, all programs / all wf programs); on the real compiler: renaming to arbitrary and compiler-looking names, redundant parentheses, layout/comments inside brackets, agreeing annotations on generated programs and shipped sources, both backends",
+         "parser layout sensitivity and type inference not modelled (search only); known findings F43 F44 F45; defect F14 repaired"),
 }
 PENDING_REASON = "check under construction in this session (see DESIGN.md section 4); not yet claimed"
 
